@@ -7,5 +7,4 @@ CONSTANTS
   MaxErrors = 1
   Variant = "per_event"
 INVARIANTS TypeOK LoadedWasWritten NotifiedOfLast
-PROPERTIES Drains
 CHECK_DEADLOCK FALSE
